@@ -70,6 +70,14 @@ def build_request(rid):
         zf, proff = vertical_profiles(12, 10.0, (3.0, 1.0), ustar=0.4, mol=-200.0)
         kw.update(z=zf, profiles=proff, domain=(100.0, 100.0), footprint=False, meas_pt=(0.0, 0.0), precision="double", levels=[3, 11], modes=(48, 48), halo=100.0)
         shape = (30, 30)
+    elif rid == 11:
+        # outside the model's alphabet: with request 12 a pair of dispersion solves on the SAME padded grid (14 x 16) reached
+        # with different halos (two cells around 10 x 12, four cells around 6 x 8)
+        kw.update(footprint=False, meas_pt=(0.0, 0.0), precision="double", domain=(240.0, 200.0), halo=40.0, modes=(8, 6))
+        shape = (10, 12)
+    elif rid == 12:
+        kw.update(footprint=False, meas_pt=(0.0, 0.0), precision="double", domain=(160.0, 120.0), halo=80.0, modes=(8, 6))
+        shape = (6, 8)
     q = rng.uniform(-1, 2, size=shape)
     return q, kw
 
@@ -366,6 +374,21 @@ def main():
                               % (rid, d, "equals" if max(rel(c_b, c_a), rel(f_b, f_a)) == 0.0 else "is not"), {"kind": "source_updated_in_place", "request": rid}, klass={"check": "in_place_source", "request": rid})
         finally:
             np.copyto(q, saved)
+    # two dispersion requests that share their PADDED grid but not their halo, alternately: each returns its own first result
+    soft_reset()
+    first_pair = {}
+    for rid in (12, 11, 12, 11, 12):
+        c_r, f_r = solve_request(rid)
+        nsolves += 1
+        if rid in first_pair:
+            c0, f0 = first_pair[rid]
+            if not (np.array_equal(c_r, c0) and np.array_equal(f_r, f0)):
+                chk.violation("request %d solved again after a request with the same padded grid and another halo is not bit-identical to its first result (max rel diff %.3e)" % (rid, max(rel(c_r, c0), rel(f_r, f0))),
+                              {"kind": "same_padded_grid", "request": rid}, klass={"check": "repeat_bitwise", "request": rid})
+                break
+        else:
+            first_pair[rid] = (np.array(c_r), np.array(f_r))
+    chk.case(json.dumps(["same padded grid, other halo", 11, 12]))
     # MANY repetitions in a row (one thread, one FFT manager, nothing in between): the sixth call returns the bits of the first
     soft_reset()
     for rid in (1, 5, 2, 8, 10, 9):
